@@ -356,7 +356,20 @@ func (c *Chain) BuildTx(msgs []sdk.Msg, gasLimit uint64) ([]byte, error) {
 // DryRunGas runs msgs on a throw-away branch of the working state with an
 // infinite meter and returns the gas consumed and whether all succeeded.
 func (c *Chain) DryRunGas(msgs []sdk.Msg) (gas uint64, ok bool) {
-	ctx := c.WorkCtx()
+	gas, ok, _ = c.dryRun(msgs)
+	return
+}
+
+// DryRunCtx is DryRunGas that also hands out the throw-away branch the messages ran on (only
+// meaningful when ok): a client that builds a tx whose later messages use what its earlier ones
+// create predicts the state in between exactly like this.
+func (c *Chain) DryRunCtx(msgs []sdk.Msg) (ctx sdk.Context, ok bool) {
+	_, ok, ctx = c.dryRun(msgs)
+	return
+}
+
+func (c *Chain) dryRun(msgs []sdk.Msg) (gas uint64, ok bool, ctx sdk.Context) {
+	ctx = c.WorkCtx()
 	ok = true
 	if c.Opts.ICA != nil {
 		// the stub IBC world must not keep anything a dry run did
@@ -376,16 +389,16 @@ func (c *Chain) DryRunGas(msgs []sdk.Msg) (gas uint64, ok bool) {
 	for _, m := range msgs {
 		h := c.App.MsgServiceRouter().Handler(m)
 		if h == nil {
-			return ctx.GasMeter().GasConsumed(), false
+			return ctx.GasMeter().GasConsumed(), false, ctx
 		}
 		if err := m.ValidateBasic(); err != nil {
-			return ctx.GasMeter().GasConsumed(), false
+			return ctx.GasMeter().GasConsumed(), false, ctx
 		}
 		if _, err := h(ctx, m); err != nil {
-			return ctx.GasMeter().GasConsumed(), false
+			return ctx.GasMeter().GasConsumed(), false, ctx
 		}
 	}
-	return ctx.GasMeter().GasConsumed(), true
+	return ctx.GasMeter().GasConsumed(), true, ctx
 }
 
 // ExportGenesis exports all module state from ctx.
